@@ -26,3 +26,31 @@ Definition p4_with_purge := option_map visible (obind p4_shared (fun g => obind 
 Theorem purged_stopper_changes_order :
   p4_without_purge = Some [100; 150; 250; 300] /\ p4_with_purge = Some [100; 250; 150; 300].
 Proof. split; vm_compute; reflexivity. Qed.
+
+(* ------------------------------------------------------------------ *)
+(* finding P42 (repaired): the position a LOSING move creates.  Two clients move the same element
+   concurrently; the replica that sees the newer move (W) first creates the older move's (L's)
+   position dead on arrival.  L's author, who has not seen W yet, holds that position live and may
+   anchor its next operation on it; so the position may only be purged once everybody has seen W
+   (it carries W's ticket), not once everybody has seen L (it used to carry L's own ticket). *)
+Definition mv_base :=
+  obind (insert_after empty_rga initial_ticket (tk 1 1) 10 (tk 1 1)) (fun g =>
+  insert_after g (tk 1 1) (tk 2 1) 20 (tk 2 1)).
+Definition mv_L := tk 5 1.      (* actor 1 moves 10 behind 20 *)
+Definition mv_W := tk 6 2.      (* actor 2 does the same, later ticket *)
+Definition mv_WL := obind mv_base (fun g => obind (move_after g (tk 2 1) (tk 1 1) mv_W) (fun g => move_after g (tk 2 1) (tk 1 1) mv_L)).
+Definition mv_LW := obind mv_base (fun g => obind (move_after g (tk 2 1) (tk 1 1) mv_L) (fun g => move_after g (tk 2 1) (tk 1 1) mv_W)).
+
+Definition removed_of (g : option rga) (p : ticket) : option (option ticket) :=
+  obind g (fun g => option_map sl_removed (find (fun s => teqb (sl_pos s) p) (slots g))).
+
+(* actor 1's next operation: insert 30 after the position its own move created *)
+Definition mv_next (g : rga) := insert_after g mv_L (tk 6 1) 30 (tk 6 1).
+
+Theorem losing_move_position_carries_winner :
+  removed_of mv_WL mv_L = Some (Some mv_W) /\ removed_of mv_LW mv_L = Some (Some mv_W) /\
+  option_map visible (obind mv_WL mv_next) = Some [20; 10; 30] /\
+  option_map visible (obind mv_LW mv_next) = Some [20; 10; 30] /\
+  (* had the position been purged when everybody had seen L only: *)
+  obind mv_WL (fun g => mv_next (purge_slot g mv_L)) = None.
+Proof. repeat split; vm_compute; reflexivity. Qed.
